@@ -22,7 +22,7 @@ PROBES = ["expand_twice", "shrink_after_expand", "copy_then_diverge", "validate_
           "handwritten_exact", "handwritten_permuted", "handwritten_altered", "placeholder_def_used", "nested_def_depth2plus",
           "same_def_twice_in_one_string", "acceptance_rejected", "acceptance_duplicate", "df_expand", "df_shrink",
           "remove_definitions", "several_definitions_in_one_string", "valid_definition_after_rejected_one_in_string",
-          "dictionaries_merged"]
+          "dictionaries_merged", "misused_def_validated", "schema_under_namespace_prefix"]
 RULE = ("Each run generates 1-4 definitions (with/without '/#', nested content, unit-carrying placeholder) and 1-3 "
         "annotations using Def/Name[/v] at depth 0-3 plus hand-written Def-expand groups (exact, sibling-permuted, "
         "altered), then executes 4-20 seeded operations over the pool of live objects; every 8th run is an acceptance "
@@ -58,9 +58,10 @@ def _init():
     repo = os.environ.get("VERIF_REPO", "/repo")
     from hed.schema import load_schema
     schema = load_schema(os.path.join(repo, "hed/schema/schema_data/HED8.3.0.xml"))
+    schema_ns = load_schema(os.path.join(repo, "hed/schema/schema_data/HED8.3.0.xml"), schema_namespace="ts:")
     names = {n for n, _ in vocab.load()["plain"]}
     _W.update(HedString=HedString, DefinitionDict=DefinitionDict, HedValidator=HedValidator, df_util=df_util, pd=pd,
-              schema=schema, plain=[t for t in vocab.SAFE_PLAIN if t in names])
+              schema=schema, schema_ns=schema_ns, plain=[t for t in vocab.SAFE_PLAIN if t in names])
     del hed_cache, tempfile, load_schema_version
     return _W
 
@@ -74,14 +75,17 @@ NAMES = ["Alpha", "beta", "Gamma7", "Delta-x", "MyDef"]
 
 # ------------------------------------------------------------------------------------------- model trees
 # node: ["t", text] | ["g", [nodes]] | ["d", name, value|None] | ["x", name, value|None]
+_NS = ""      # schema namespace prefix of the current run ("" or "ts:"): every tag is written with it
+
+
 def render(node):
     k = node[0]
     if k == "t":
-        return node[1]
+        return _NS + node[1]
     if k == "d":
-        return "Def/%s%s" % (node[1], "/" + node[2] if node[2] is not None else "")
+        return _NS + "Def/%s%s" % (node[1], "/" + node[2] if node[2] is not None else "")
     if k == "x":
-        return "Def-expand/%s%s" % (node[1], "/" + node[2] if node[2] is not None else "")
+        return _NS + "Def-expand/%s%s" % (node[1], "/" + node[2] if node[2] is not None else "")
     return "(" + ", ".join(render(c) for c in node[1]) + ")"
 
 
@@ -151,9 +155,24 @@ def m_bad_expands(nodes, defs):
                     want = [["x", x[1], x[2]]] + ([subst(d["content"], x[2])] if d["content"] is not None else [])
                     if m_canon([["g", want]]) != m_canon([n]):
                         bad += 1
+                elif d is not None:
+                    bad += 1          # a value where none is taken, or none where one is required
             else:
                 bad += m_bad_expands(n[1], defs)
     return bad
+
+
+def m_misused_defs(nodes, defs):
+    """Number of Def tags whose value does not fit their definition (reported, never expanded)."""
+    c = 0
+    for n in nodes:
+        if n[0] == "d":
+            d = defs.get(n[1].casefold())
+            if d is not None and d["takes_value"] != (n[2] is not None):
+                c += 1
+        elif n[0] == "g":
+            c += m_misused_defs(n[1], defs)
+    return c
 
 
 def count_nodes(nodes, kind):
@@ -213,8 +232,8 @@ def _gen_defs(g):
 def _def_string(d):
     nm = d["name"] + ("/#" if d["takes_value"] else "")
     if d["content"] is None:
-        return "(Definition/%s)" % nm
-    return "(Definition/%s, %s)" % (nm, render(d["content"]))
+        return "(%sDefinition/%s)" % (_NS, nm)
+    return "(%sDefinition/%s, %s)" % (_NS, nm, render(d["content"]))
 
 
 def _case_variant(g, name):
@@ -233,6 +252,11 @@ def _gen_annotation(g, defs, stats):
         d = defs[g.pick(names)]
         nm = _case_variant(g, d["name"])
         v = g.pick(d["values"]) if d["takes_value"] else None
+        if g.chance(0.08):
+            # misuse: a value on a definition that takes none (also a label-only one), or none where one is required -
+            # never expanded, reported by validation
+            v = None if d["takes_value"] else g.pick(["7", "x1"])
+            stats.append("misused")
         r = g.random()
         if r < 0.7:
             return ["d", nm, v]
@@ -246,8 +270,11 @@ def _gen_annotation(g, defs, stats):
                 _permute(g, c)
             else:
                 kind = "altered"
-                _alter(g, c)
-            kids.append(c)
+                if g.chance(0.3):
+                    kids.append(["t", g.pick(["Purple", "Orange"])])     # an extra tag beside the content group
+                else:
+                    _alter(g, c)
+            kids.insert(g.randrange(1, len(kids) + 1), c)
         else:
             kind = "exact"
         stats.append(kind)
@@ -367,7 +394,8 @@ def generate(run_index, seed, tier):
         ops.append([op, g.randrange(n_live)])
         if op == "copy":
             n_live += 1
-    return {"kind": "history", "defs": defs, "anns": anns, "ops": ops, "hw": stats}
+    # 1 run in 7 uses the schema under a namespace prefix: every tag, Def and Definition is then written ts:...
+    return {"kind": "history", "defs": defs, "anns": anns, "ops": ops, "hw": stats, "ns": "ts:" if g.chance(0.15) else ""}
 
 
 def shrink(sc):
@@ -451,10 +479,22 @@ def _lib_canon(text):
 
 
 def execute(sc, script=None):
+    global _NS
+    _NS = ""
+    if sc.get("ns"):
+        _NS = sc["ns"]
+        try:
+            return _execute_history(sc)
+        finally:
+            _NS = ""
+    return _execute_history(sc)
+
+
+def _execute_history(sc):
     W = _init()
     if sc["kind"] == "acceptance":
         return _execute_acceptance(W, sc)
-    HedString, schema = W["HedString"], W["schema"]
+    HedString, schema = W["HedString"], (W["schema_ns"] if sc.get("ns") else W["schema"])
     violations = []
     probes = {}
     trace = []
@@ -471,6 +511,8 @@ def execute(sc, script=None):
         raise RuntimeError("generator produced a definition the library rejects: %s vs %s" % (sorted(dd.defs), sorted(defs)))
     for k in sc.get("hw", []):
         probe("handwritten_" + k)
+    if sc.get("ns"):
+        probe("schema_under_namespace_prefix")
     if any(d["takes_value"] for d in defs.values()):
         probe("placeholder_def_used")
     live = []      # [lib object, model nodes, flags]
@@ -547,6 +589,14 @@ def execute(sc, script=None):
                 want_bad = m_bad_expands(m, defs)
                 if count_nodes(m, "x"):
                     probe("validate_in_expanded_state")
+                n_inv = sum(1 for i in issues if i.get("code") == "DEF_INVALID")
+                want_inv = m_misused_defs(m, defs)
+                if want_inv:
+                    probe("misused_def_validated")
+                if n_inv != want_inv:
+                    viol("def-expand-validation", "validation of %r reports %d DEF_INVALID, but %d Def tags carry a value their "
+                         "definition does not take / lack the one it requires" % (str(L), n_inv, want_inv),
+                         "misused-def-not-reported" if n_inv < want_inv else "valid-def-reported")
                 if n_bad != want_bad:
                     viol("def-expand-validation", "validation of %r reports %d DEF_EXPAND_INVALID but %d Def-expand groups differ "
                          "from their definition's expansion (up to sibling order)" % (str(L), n_bad, want_bad),
